@@ -2,6 +2,7 @@ package main
 
 import (
 	"fmt"
+	"go/constant"
 	"go/token"
 	"go/types"
 	"sort"
@@ -59,6 +60,107 @@ func checkC05(c *Ctx) (string, []string) {
 		okG := pageGuarded(st, in, call.Call.Args[0])
 		c.Check(okG, "C05.store-checks-first", "PVM.storeIntoMemory · copy → "+dst+" · page guards", in.Pos(), "page present and ReadWrite on every path to this write", "a page is written without a dominating presence test and Access == ReadWrite test of that same page")
 	})
+
+	// loads decide readability by the page's presence in the table: no page may then carry the access value
+	// "inaccessible" (a revoked page must leave the table), unless the load tests the access of each page it reads
+	c.Rule("C05.mapped-accessible", "loadFromMemory reads a page as soon as it is present in the page table, so every store to Page.Access and every Page literal in package PVM gives the page a value that is never MemoryInaccessible (constants ReadOnly/ReadWrite, through merges and parameters at every call site) — or loadFromMemory itself tests the access of each page it reads", 4)
+	{
+		loadTestsAccess := true
+		allInstrs(ld, func(in ssa.Instruction) {
+			lk, ok := in.(*ssa.Lookup)
+			if !ok || !isPagesLookup(in) {
+				return
+			}
+			tested := false
+			for _, b := range ld.Blocks {
+				if ifi, isIf := b.Instrs[len(b.Instrs)-1].(*ssa.If); isIf {
+					if s := exprStr(ifi.Cond, shapeOpts); strings.Contains(s, ".Access") && derivesFromCond(ifi.Cond, lk) {
+						tested = true
+					}
+				}
+			}
+			if !tested {
+				loadTestsAccess = false
+			}
+		})
+		inacc := int64(0)
+		if k, ok := c.Obj("PVM", "MemoryInaccessible").(*types.Const); ok {
+			inacc, _ = constant.Int64Val(k.Val())
+		}
+		var neverInacc func(v ssa.Value, d int) (bool, string)
+		neverInacc = func(v ssa.Value, d int) (bool, string) {
+			v = stripConv(v)
+			if d > 5 {
+				return false, "too deep"
+			}
+			switch x := v.(type) {
+			case *ssa.Const:
+				k, isC := constInt(x)
+				return isC && k != inacc, fmt.Sprintf("constant %d", k)
+			case *ssa.Phi:
+				for _, e := range x.Edges {
+					if ok, why := neverInacc(e, d+1); !ok {
+						return false, why
+					}
+				}
+				return true, ""
+			case *ssa.Parameter:
+				f := x.Parent()
+				idx := -1
+				for i, p := range f.Params {
+					if p == x {
+						idx = i
+					}
+				}
+				n := 0
+				for _, g := range c.SrcFuncs("PVM") {
+					for _, gg := range withClosures(g) {
+						for _, call := range callsIn(gg, f.Object()) {
+							n++
+							if ok, why := neverInacc(call.Common().Args[idx], d+1); !ok {
+								return false, "argument at " + c.pos(call.Pos()) + ": " + why
+							}
+						}
+					}
+				}
+				return n > 0 && f.Object() != nil && !f.Object().Exported(), "parameter of " + f.Name()
+			case *ssa.UnOp:
+				if a, isA := x.X.(*ssa.Alloc); isA && x.Op == token.MUL {
+					okAll, n := true, 0
+					for _, r := range *a.Referrers() {
+						if st, isSt := r.(*ssa.Store); isSt && st.Addr == ssa.Value(a) {
+							n++
+							if ok, _ := neverInacc(st.Val, d+1); !ok {
+								okAll = false
+							}
+						}
+					}
+					return okAll && n > 0, "local cell"
+				}
+			}
+			return false, abbr(exprStr(v, shapeOpts))
+		}
+		nstores := 0
+		for _, f := range c.SrcFuncs("PVM") {
+			for _, g := range withClosures(f) {
+				allInstrs(g, func(in ssa.Instruction) {
+					st, ok := in.(*ssa.Store)
+					if !ok {
+						return
+					}
+					fa, isFA := st.Addr.(*ssa.FieldAddr)
+					if !isFA || fieldName(fa.X.Type(), fa.Field) != "Access" || !hasSuffixType(derefType(fa.X.Type()), "PVM.Page") {
+						return
+					}
+					nstores++
+					key := fmt.Sprintf("%s · Page.Access ← %s", funcKey(g), abbr(exprStr(st.Val, shapeOpts)))
+					ok2, why := neverInacc(st.Val, 0)
+					c.Check(ok2 || loadTestsAccess, "C05.mapped-accessible", key, st.Pos(), "never the value MemoryInaccessible", "a page kept in the page table can be given the access value MemoryInaccessible ("+why+"), and loadFromMemory reads any page that is present: a revoked page stays readable")
+				})
+			}
+		}
+		c.extra["page_access_stores"] = nstores
+	}
 
 	c.Rule("C05.low-memory-panics", "in loadFromMemory and storeIntoMemory every page-table lookup is dominated by the false edge of address < 2^16, whose true edge returns ExitPanic; page-fault exits carry the access address", 4)
 	for _, f := range []*ssa.Function{st, ld} {
@@ -373,3 +475,29 @@ func pageOf(v ssa.Value) *ssa.Lookup {
 func derivesFrom(v ssa.Value, l *ssa.Lookup) bool { return pageOf(stripConv(v)) == l }
 
 var _ types.Type
+
+// derivesFromCond: the condition mentions a value derived from the lookup lk.
+func derivesFromCond(v ssa.Value, lk *ssa.Lookup) bool {
+	seen := map[ssa.Value]bool{}
+	var walk func(ssa.Value, int) bool
+	walk = func(x ssa.Value, d int) bool {
+		if x == nil || seen[x] || d > 8 {
+			return false
+		}
+		seen[x] = true
+		if x == ssa.Value(lk) {
+			return true
+		}
+		in, ok := x.(ssa.Instruction)
+		if !ok {
+			return false
+		}
+		for _, op := range in.Operands(nil) {
+			if *op != nil && walk(*op, d+1) {
+				return true
+			}
+		}
+		return false
+	}
+	return walk(v, 0)
+}
